@@ -370,6 +370,66 @@ mod verif_bounded {
             }
         }}}
     }
+    // C04 / C02 / C10 "a lookup returns the last value saved under that key": a message whose timestamps sit at the edges of the integer
+    // ranges (a rumor's created_at is chosen by its sender: C04 "arbitrary created_at") is either stored EXACTLY as given or refused --
+    // never stored with a clamped, wrapped or otherwise altered timestamp. (Whether such a save is accepted is NOT compared between the
+    // back ends: SQLite refuses values above i64::MAX, the memory back end stores them.)
+    // Scope: created_at and processed_at over {0, 1, i64::MAX - 1, i64::MAX, i64::MAX + 1, u64::MAX}, both back ends.
+    #[test]
+    fn boundary_timestamps_are_stored_exactly_or_refused() {
+        let label = "sqlite_bounded.boundary_timestamps_are_stored_exactly_or_refused";
+        let edge: [u64; 6] = [0, 1, i64::MAX as u64 - 1, i64::MAX as u64, i64::MAX as u64 + 1, u64::MAX];
+        fn run<S: MdkStorageProvider>(label: &str, back: &'static str, st: &S, edge: &[u64]) {
+            st.save_group(group(1, 1)).unwrap();
+            let mut n = 0u8;
+            for &c in edge { for &p in edge {
+                n += 1;
+                let m = msg(1, n, c, p, Some(1), MessageState::Processed, "edge", Tags::new());
+                let scen = format!("save_message with created_at = {c}, processed_at = {p}");
+                if st.save_message(m.clone()).is_ok() {
+                    expect(label, &scen, "find_message_by_event_id after an ACCEPTED save", back, st.find_message_by_event_id(&gid(1), &eid(n)).unwrap(), Some(m));
+                } else {
+                    expect(label, &scen, "find_message_by_event_id after a REFUSED save", back, st.find_message_by_event_id(&gid(1), &eid(n)).unwrap(), None);
+                }
+            }}
+        }
+        let (m, s) = stores();
+        run(label, "memory", &m, &edge);
+        run(label, "SQLite", &s, &edge);
+    }
+    // C20 / C09 / C06: a rollback that the back end REFUSES (its target snapshot is gone: released or TTL-pruned by another process on
+    // the same file) leaves the manager's accounting as it was: nothing stored is dropped by it, and the snapshots taken before it still
+    // count towards the retention limit, so after further commits the group holds exactly the `retention` most recent ones.
+    // Scope (quick): both back ends, retention 2 and 3, every target epoch with at least one later snapshot; thorough adds retention 4.
+    #[test]
+    fn refused_rollback_keeps_the_snapshot_accounting() {
+        use crate::epoch_snapshots::EpochSnapshotManager;
+        let label = "sqlite_bounded.refused_rollback_keeps_the_snapshot_accounting";
+        let thorough = std::env::var("VERIF_TIER").as_deref() == Ok("thorough");
+        let cid = |n: u64| EventId::from_hex(&format!("{:064x}", n + 1)).unwrap();
+        fn epochs_of<S: MdkStorageProvider>(s: &S) -> Vec<u64> {
+            let mut v: Vec<u64> = s.list_group_snapshots(&gid(1)).unwrap().into_iter().map(|(name, _)| name.split('_').nth(2).unwrap().parse::<u64>().unwrap()).collect();
+            v.sort(); v
+        }
+        fn run<S: MdkStorageProvider>(label: &str, back: &'static str, s: &S, retention: usize, target: u64, cid: &dyn Fn(u64) -> EventId) {
+            s.save_group(group(1, 1)).unwrap();
+            let manager = EpochSnapshotManager::new(retention);
+            let n = retention as u64;
+            let names: Vec<String> = (0..n).map(|e| manager.create_snapshot(s, &gid(1), e, &cid(e), 5000 + e).unwrap()).collect();
+            s.release_group_snapshot(&gid(1), &names[target as usize]).unwrap();
+            let scen = format!("retention {retention}; commits of epochs 0..={}; the snapshot of epoch {target} disappears from the store; rollback to epoch {target}", n - 1);
+            expect(label, &scen, "rollback_to_epoch refused?", back, manager.rollback_to_epoch(s, &gid(1), target).is_err(), true);
+            expect(label, &scen, "epochs of the stored snapshots after the refused rollback", back, epochs_of(s), (0..n).filter(|e| *e != target).collect::<Vec<_>>());
+            for e in n..(2 * n) { manager.create_snapshot(s, &gid(1), e, &cid(e), 5000 + e).unwrap(); }
+            expect(label, &format!("{scen}; then commits of epochs {n}..={}", 2 * n - 1), "epochs of the stored snapshots", back, epochs_of(s), (n..(2 * n)).collect::<Vec<_>>());
+        }
+        let retentions: Vec<usize> = if thorough { vec![2, 3, 4] } else { vec![2, 3] };
+        for &retention in &retentions { for target in 0..(retention as u64 - 1) {
+            let (m, s) = stores();
+            run(label, "memory", &m, retention, target, &cid);
+            run(label, "SQLite", &s, retention, target, &cid);
+        }}
+    }
     // C09 "re-taking a snapshot under an existing name replaces it": snapshot N of state A, change to B, snapshot N again, change to C,
     // roll back to N: the group must show state B on both back ends. Scope: one group, one name taken twice.
     #[test]
